@@ -141,3 +141,18 @@ Theorem C17_stream_consumer : forall b payloads fs, 1 <= b -> fs <> [] ->
   forall c, chain_reachable b payloads fs c -> mainp c = MDone -> forall pre s post, segs c = pre ++ s :: post ->
   stream_records (payloads_of (sseen s)) = concat (payloads_of (stream_into payloads (firstn (length pre) fs))).
 Proof. exact stream_consumer. Qed.
+
+(* ---- handlers that throw (util::Worker::operator(): report, then abort()) ----
+   `fails r` says on which requests the handler throws; the state carries "the process has been aborted".
+   Whatever the handlers do, a worker never drops a request: at every moment every request is still to be submitted, queued,
+   in a worker's hands or handled (a consumed request is handled or the process ends). *)
+Theorem C17_thread_pool_never_drops : forall cap w reqs fails, 1 <= cap -> 1 <= w ->
+  forall s, pool_reachable_f cap w reqs fails s -> forall r,
+  cnt (did r) (handled (fst s)) + cnt (holds r) (pws (fst s)) + cnt (is_req r) (pq (fst s)) + cnt (is_req r) (todo (fst s)) = cnt (Nat.eqb r) reqs.
+Proof. exact pool_f_never_drops. Qed.
+
+(* ... and the run always ends: until every worker has finished or the process has been aborted some thread can step *)
+Theorem C17_thread_pool_fails_no_hang : forall cap w reqs fails, 1 <= cap -> 1 <= w ->
+  forall s, pool_reachable_f cap w reqs fails s -> snd s = false -> pool_finished (fst s) = false ->
+  exists t s', pool_step_f cap fails s t = Some s'.
+Proof. exact pool_f_no_hang. Qed.
